@@ -118,8 +118,14 @@ def gen_case(rng, kind, subtype, patterns):
     s, tx, ty = A.fit_transform(rng, kind, els, subtype, hi - lo)
     tx -= lo * s
     ty -= lo * s
+    els0 = list(els)
     els = [gg.transform(e, kind, s, tx, ty) for e in els]
-    return {"kind": kind, "subtype": subtype, "elements": els, "valid": valid,
+    down = 0
+    if subtype == "float64" and rng.random() < 0.3:
+        # exact dyadic down-scaling: tiny rings (areas down to ~1e-12) keep a definite orientation
+        down = int(rng.integers(8, 22))
+        els = [gg.transform(e, kind, 2.0 ** -down, 0.0, 0.0) for e in els0]
+    return {"kind": kind, "subtype": subtype, "elements": els, "valid": valid, "down": down,
             "box_lohi": [lo * s + tx, hi * s + tx, lo * s + ty, hi * s + ty],
             "formseed": int(rng.integers(2 ** 31))}
 
@@ -177,7 +183,7 @@ def check_case(ctx, case):
     ok, forms, tb = ctx.guarded(A.all_forms, kind, els, subtype, rng)
     if not ok:
         return rec_raise("construct", forms, tb)
-    nontrivial = any(og.is_closed(r) and og.ring_area2(r) != 0
+    nontrivial = any(og.is_closed(r) and og.ring_area2([og.to_exact(v) for v in r]) != 0
                      for e in els for _, _, r in rings_of(kind, e))
     ref_out = None
     for form, arr in forms:
@@ -191,7 +197,7 @@ def check_case(ctx, case):
             rec_raise(f"call", out, tb)
             continue
         ctx.case([kind, subtype, els, form], nontrivial=nontrivial)
-        ctx.sig(kind, subtype, form, "missing-last" if (els and els[-1] is None) else
+        ctx.sig(kind, subtype, form, "tiny" if case.get("down") else "-", "missing-last" if (els and els[-1] is None) else
                 ("missing-first" if (els and els[0] is None) else "-"))
         # input untouched
         ctx.count("immutability_checked")
@@ -232,7 +238,7 @@ def check_case(ctx, case):
                     bad = True
                     break
                 if og.is_closed(r1) and len(r1) >= 8:
-                    a2 = og.ring_area2(r1)
+                    a2 = og.ring_area2([og.to_exact(v) for v in r1])
                     role = "shell" if ri == 0 else "hole"
                     if a2 != 0 and ((role == "shell") != (a2 > 0)):
                         ctx.violation("orientation", f"oriented:{kind}:{role}-direction",
@@ -256,7 +262,7 @@ def check_case(ctx, case):
             ctx.count("idempotence_checked")
             o2 = gg.pylist(out2)
             if not all(gg.same_value(a, b) for a, b in zip(o2, o)) or len(o2) != len(o):
-                zero = any(og.is_closed(r) and len(r) >= 6 and og.ring_area2(r) == 0
+                zero = any(og.is_closed(r) and len(r) >= 6 and og.ring_area2([og.to_exact(v) for v in r]) == 0
                            for e in els for _, _, r in rings_of(kind, e))
                 ctx.violation("idempotence",
                               f"oriented:{kind}:not-idempotent:{'zero-area-ring' if zero else 'other'}",
@@ -295,7 +301,7 @@ def check_case(ctx, case):
                                           observed=float(r[1][i]), case=case)
             lo_x, hi_x, lo_y, hi_y = case["box_lohi"]
             vi = [i for i in range(n) if valid[i]]
-            if vi and hi_x > lo_x and hi_y > lo_y:
+            if vi and hi_x > lo_x and hi_y > lo_y and not case.get("down"):
                 for _ in range(12):
                     xs = np.sort(rng.integers(2 * lo_x - 2, 2 * hi_x + 3, size=2)) / 2.0
                     ys = np.sort(rng.integers(2 * lo_y - 2, 2 * hi_y + 3, size=2)) / 2.0
